@@ -90,6 +90,15 @@ CLAIMED = {
         "Argument types are int/double only (no bufferify companions). Exhaustive below the stated bound; nothing is sampled above it.",
         "DESIGN.md section 3 C08",
     ),
+    "C11": (
+        "exhaustive enumeration of enumerations over the bounded expression grammar; four-way agreement of g++ (original), gcc (generated header), gfortran (generated module) and a model",
+        "Every enumeration of 1-3 members whose explicit values are drawn from the expression grammar to depth 1 (quick, 2.5k enums) / 2 (thorough, 21k enums) - literals, unary sign, "
+        "+ - * /, parentheses, references to earlier members - plain and scoped, at library, namespace and class scope, is declared to the real shroud, 150 per library. Every "
+        "enumerator's value is printed by a C++ program compiled from the original declaration, a C program compiled against the generated header and a Fortran program using the "
+        "generated module, and all three must equal the model's value; a header or module that does not compile is attributed to the enum on the failing line.",
+        "gcc/g++/gfortran 12 as the meaning of the languages; values within int range; division by zero excluded.",
+        "DESIGN.md section 3 C11",
+    ),
 }
 
 PENDING_REASON = "check not built yet in this round (planned, see DESIGN.md section 8); not claimed until it runs"
